@@ -75,8 +75,8 @@ func compare(values__5 Tuple2_float32_float64) string {
     var x5 float64 = values__5._1
     var right__7 float64 = x5
     var left__6 float32 = x4
-    var limit32__8 float32 = 1
-    var limit64__9 float64 = 5
+    var limit32__8 float32 = 1.0
+    var limit64__9 float64 = 5.0
     var less_left__10 bool = left__6 < limit32__8
     var less_right__11 bool = right__7 < limit64__9
     var t11 string = bool_to_string(less_left__10)
@@ -106,7 +106,7 @@ func main0() struct{} {
     }
     var tuple__18 Tuple2_float32_float64 = Tuple2_float32_float64{
         _0: 0.75,
-        _1: 4,
+        _1: 4.0,
     }
     var tuple_other__19 Tuple2_float32_float64 = Tuple2_float32_float64{
         _0: 1.5,
